@@ -3,6 +3,7 @@ import Fuota.Drv.D1
 import Fuota.Drv.D2
 import Fuota.Drv.D4
 import Fuota.Drv.D7
+import Fuota.Drv.D6c
 import Fuota.Drv.D5
 /-! Line-protocol driver: one query per input line, one canonical answer per output line.
     Imports the model files only (no Mathlib), so it links as a native executable.
@@ -24,6 +25,9 @@ def step (st : St) (line : String) : St × String :=
   | some o => (st, o)
   | none =>
   match D7.step toks with
+  | some o => (st, o)
+  | none =>
+  match D6c.step toks with
   | some o => (st, o)
   | none =>
   match D1.step st.d1 toks with
